@@ -319,7 +319,7 @@ class TupleArg(Arg):
 class Contract:
     def __init__(self, target, args, requires=(), ensures=(), raises=(), props=(), kind="top",
                  modifies=(), call=None, notes="", native_only=False, setup=None, max_paths=None,
-                 samples=200, kf=None, result_filter=None, split=(), shards=1, returns_expr=None, gen=None, requires_symbolic=(), tier="quick", symbolic_only=False, cases=None, aux=()):
+                 samples=200, kf=None, result_filter=None, split=(), shards=1, returns_expr=None, gen=None, requires_symbolic=(), tier="quick", symbolic_only=False, cases=None, aux=(), on_raise=()):
         """target: 'module:Qual.name'
         args: [Arg]  (positional parameters of the function, in order; self first for methods)
         requires: [expr]                      extra preconditions over the parameter names
@@ -337,6 +337,7 @@ class Contract:
         self.split = list(split); self.shards = shards; self.returns_expr = returns_expr; self.gen = gen
         self.cases = cases          # callable(tier) -> list of argument lists: exhaustive enumeration of a stated small scope (engine R)
         self.symbolic_only = symbolic_only   # abstract harness: no native form, no native sampling
+        self.on_raise = list(on_raise)   # [(id, expr)] must hold on every path that ends in an exception (over exc, ghost, the arguments)
         self.aux = list(aux)      # ids of ensures clauses that are *facts for a composition*, not claims: a failing one is recorded
         #                           (report.extra['aux']) and decided by the property's composition rule, never reported by itself
         self.frames_only = False  # derived contract: only the frame condition is generated (C17)
@@ -777,6 +778,8 @@ class Verifier:
         for c in cmod.CONTRACTS:
             if c.returns_expr is None and not (c.raises and not c.ensures):
                 continue
+            if c.native_only:
+                continue
             try:
                 _, f = c.resolve()
             except Exception:
@@ -878,6 +881,8 @@ class Verifier:
         else:
             exc = p.value
             env["exc"] = exc
+            for eid, expr in contract.on_raise:
+                eval_clause(f"on-raise:{eid}", expr, "ensures")
             conds = [cond for cls, cond, mode in contract.raises if issubclass(exc.cls, cls)]
             if not conds:
                 out.append((f"raises:{exc.cls.__name__}", p.pc, False, "raises"))
